@@ -31,6 +31,17 @@ claimed.update({
  "C14": ("E+B", "the C05/C06/C07 enumerations with the CheckSum() oracle, plus exhaustive sequences of 1..3 Scale operations on a fixed sub-family",
          "CheckSum() is compared with the reference check value and with the decoded check character on every accepted EAN / Code 128 / Code 39 input of the enumerations, and must be preserved (and still exposed) through every sequence of up to three Scale operations.", E_NOTE, "4.C14"),
 })
+
+claimed.update({
+ "C01": ("E", "bounded exhaustive enumeration of QR contents x levels x modes over class/full alphabets and a capacity grid covering all 40 versions, each symbol decoded by an independent strict ISO 18004 reference reader",
+         "Every explored (content, level, mode) is rendered by the real encoder and read back from the pixels: function patterns, BCH-valid format/version words, unmasking, de-interleaving with an independently sourced block table, zero RS syndromes for every block, segment parsing, terminator and pad codewords; decoded bytes must equal the input. The capacity grid places symbols at cap-1/cap/cap+1 of every version x level x mode (thorough: every length), so every block layout and both sides of every capacity constant are executed.", E_NOTE, "4.C01"),
+ "C02": ("E", "bounded exhaustive enumeration of DataMatrix contents (class words, all byte pairs, codeword-count grid over all 24 sizes), decoded by an independent strict ECC 200 reader",
+         "Each symbol is checked for finder/clock of every region, read through an independent Annex F placement, RS-checked per interleaved block and ASCII-decoded incl. upper shift and 253-state pads; decoded bytes must equal the input. The grid reaches every capacity boundary five ways.", E_NOTE, "4.C02"),
+ "C03": ("E", "bounded exhaustive enumeration of Aztec payloads x ecc% x layer requests (class words, all byte pairs, binary-shift threshold runs, capacity boundary of every layer request), decoded by an independent strict ISO 24778 reader",
+         "Each symbol is checked for bullseye, orientation marks, RS-valid mode message consistent with the size, complete reference grid, RS-valid data words without all-0/all-1 words, then un-stuffed and decoded through all modes/shifts/binary shift; payload and honoured layer request are compared.", E_NOTE, "4.C03"),
+ "C04": ("E", "bounded exhaustive enumeration of PDF417 data x security levels (sub-mode class words, all byte pairs, macro words over compaction segments, length grid), decoded by an independent strict ISO 15438 reader",
+         "Each symbol is checked for start/stop, cluster discipline, left/right row indicators, RS validity over GF(929) with directly computed syndromes, and decoded through text/byte/numeric compaction with all sub-modes; decoded bytes must equal the input. Macro words drive the compaction automaton through the transitions (shifted byte between text, numeric latches, pads in each sub-mode) where state can desynchronise.", E_NOTE + " PDF417 bar-space table: structural validation + pinned digest (trusted base).", "4.C04"),
+})
 pending_reason = "check not built yet in this round (planned, see DESIGN.md section 4); not claimed until its explorer exists and passes on the unchanged tree"
 
 checks = []
